@@ -2,7 +2,7 @@ SPECIFICATION Spec
 CONSTANTS
   Focus = {"g.x", "g.y"}
   NDcf = 2
-  MaxArgv = 2
+  MaxArgv = 1
   Emit = TRUE
 INVARIANT DocumentedOrder
 INVARIANT StagesAgree
